@@ -30,6 +30,11 @@ def main():
             return mod.replay(ctx, path)
         build_s = core.lake_build()
         obligations, discharged, axioms, pf = core.audit(prop)
+        if tier == "thorough":
+            lc = core.leanchecker(prop)
+            ctx.extra["leanchecker"] = lc
+            if lc["exit"] != 0:
+                pf.append("leanchecker rejected " + " ".join(lc["modules"]) + ": " + lc["output_tail"][-200:])
         mod.run(ctx)
         return core.finish(ctx, obligations, discharged, axioms, pf, build_s,
                            BASE_TRUST + getattr(mod, "TRUST", []), getattr(mod, "search", None))
